@@ -109,21 +109,35 @@ def is_finite(v) -> bool:
         return False
 
 
-def close(impl, model, tol=1e-9) -> bool:
-    """comparison rule 3 of DESIGN.md 4.3: |impl - model| <= tol * max(1, ||model||_inf)"""
+def close(impl, model, tol=1e-9, floor=1.0) -> bool:
+    """comparison rule 3 of DESIGN.md 4.3: |impl - model| <= tol * max(floor, ||model||_inf).
+    `floor` is the magnitude below which differences are rounding noise: 1 for O(1) lattice data; callers that
+    generate small-unit data pass the magnitude of their inputs (see vclose)."""
     impl = list(impl)
     model = list(model)
     if len(impl) != len(model):
         return False
     if not model:
         return True
-    scale = max(1.0, max(abs(float(m)) for m in model))
+    scale = max(floor, max(abs(float(m)) for m in model))
     for a, b in zip(impl, model):
         if not is_finite(a):
             return False
         if abs(float(a) - float(b)) > tol * scale:
             return False
     return True
+
+
+def vclose(impl, model, tol=1e-9, ref=()) -> bool:
+    """relative comparison of two vectors: the scale is the largest magnitude among model, impl and the reference
+    values `ref` (typically the inputs the result was computed from), without an absolute floor"""
+    impl = list(impl)
+    model = list(model)
+    mags = [abs(float(v)) for v in model] + [abs(float(v)) for v in impl if is_finite(v)] + [abs(float(v)) for v in ref]
+    fl = max(mags) if mags else 1.0
+    if fl == 0.0:
+        fl = 1.0
+    return close(impl, model, tol, floor=fl)
 
 
 def exact(impl, model) -> bool:
@@ -328,8 +342,15 @@ class Rng(random.Random):
         return Fraction(self.randint(lo, hi), den)
 
     def increasing(self, n, start=None, steps=(Fraction(1, 4), Fraction(1, 2), Fraction(1), Fraction(3, 2),
-                                              Fraction(2), Fraction(3), Fraction(7)), uniform=None):
-        """strictly increasing abscissae on a small dyadic lattice"""
+                                              Fraction(2), Fraction(3), Fraction(7)), uniform=None, jitter=False):
+        """strictly increasing abscissae on a small dyadic lattice; with `jitter` a uniform grid whose samples are
+        displaced by ~1e-7 of the step (nearly but not exactly evenly sampled data, e.g. time stamps)"""
+        if jitter:
+            st = float(self.choice(steps))
+            x0 = float(self.randint(-40, 40)) / 4
+            xs = [Fraction(x0 + k * st + st * self.uniform(-1, 1) * self.choice([1e-6, 1e-7, 3e-9])) for k in range(n)]
+            if all(b > a for a, b in zip(xs[:-1], xs[1:])):
+                return xs
         if start is None:
             start = Fraction(self.randint(-40, 40), 4)
         if uniform is None:
